@@ -436,9 +436,13 @@ fn gen_inputs(family: &str, rng: &mut Rng, n: usize, seeds: &[String]) -> Vec<St
     v
 }
 
-fn corpus_inputs(stream: &str) -> Vec<(String, Cfg)> {
-    // minimised past failures, run first: corpus/<stream>.txt, lines "cfg<TAB>hex"
-    let p = std::env::var("VERIF_ROOT").unwrap_or_else(|_| "/verif".to_string()) + "/corpus/" + stream + ".txt";
+fn corpus_inputs(stream: &str, only: &str) -> Vec<(String, Cfg)> {
+    // minimised past failures, run first: corpus/<stream>.txt, lines "cfg<TAB>hex"; `only` = a replay file in the same format
+    let p = if only.is_empty() {
+        std::env::var("VERIF_ROOT").unwrap_or_else(|_| "/verif".to_string()) + "/corpus/" + stream + ".txt"
+    } else {
+        only.to_string()
+    };
     let mut v = vec![];
     if let Ok(s) = std::fs::read_to_string(p) {
         for l in s.lines() {
@@ -608,10 +612,13 @@ fn cmd_emit(a: &Args) {
     let oracle_list: Vec<String> = a.get("oracles", "").split(',').filter(|x| !x.is_empty()).map(|x| x.to_string()).collect();
     let mut rng = Rng::new(seed);
     let mut cases: Vec<Case> = vec![];
-    for (input, cfg) in corpus_inputs(&stream) {
-        cases.push(Case { stream: stream.clone(), family: "corpus".into(), input, cfg, cursors: vec![], oracles: oracle_list.clone(), well_formed: false, w2: 80, input2: None, marks: vec![], texts: vec![] });
+    let only = a.get("only_corpus", "");
+    for (input, cfg) in corpus_inputs(&stream, &only) {
+        let cursors: Vec<u32> = a.get("replay_cursors", "").split(',').filter_map(|x| x.trim().parse().ok()).collect();
+        let wf = a.get("replay_well_formed", "0") == "1";
+        cases.push(Case { stream: stream.clone(), family: "corpus".into(), input, cfg, cursors, oracles: oracle_list.clone(), well_formed: wf, w2: a.num("replay_w2", 80) as u32, input2: None, marks: vec![], texts: vec![] });
     }
-    let per = (count + families.len() - 1) / families.len().max(1);
+    let per = if only.is_empty() { (count + families.len() - 1) / families.len().max(1) } else { 0 };
     for fam in &families {
         if fam == "relayout" || fam == "marked" {
             let mut r = rng.fork();
